@@ -1,4 +1,5 @@
 import CMacVerif.Props.C04
+import CMacVerif.Props.C07
 import CMacVerif.Lemmas.HydroPhases
 /-!
 # C10 — hydro results do not depend on the subgrid layout or on the schedule
@@ -164,6 +165,32 @@ theorem single_thread_deterministic (L : Layout) (c : Cells) (hc : 0 < c.cx ∧ 
   have hl := linExt_of_oneThread hinv hlen
   exact ⟨hl, fun flux pr limiter predict s x hx =>
     schedule_equals_step L c hc flux pr limiter predict _ hl s x hx⟩
+
+/-- **worker_execution_is_linear_extension.**  The formal link to C07: for EVERY complete
+execution of the worker loop over the hydro graph of layout `L` (label trace `ls` of any number of
+threads, `number_of_tasks = 0` at the end) the order in which the sweeps finish is a linear
+extension in the sense of `schedule_independent` (C07: `hydro_finish_order`). -/
+theorem worker_execution_is_linear_extension (L : Layout) (ls : List (Worker.Label Task))
+    (hl : ∀ l ∈ ls, exists_ L (Worker.labelTask l) = true) (w : Worker.WState Task)
+    (h : Worker.run (graph L) (Worker.init (graph L)) ls = some w) (h0 : w.num = 0) :
+    LinExt L (Worker.finishOrder ls) := by
+  obtain ⟨h1, h2, h3⟩ := CMacVerif.HydroGraph.hydro_finish_order L ls hl w h h0
+  exact ⟨h1, h2, h3⟩
+
+/-- **worker_execution_equals_step.**  Every complete execution of the worker loop — any number
+of threads, any interleaving of pops, sweeps, releases — serialised in the order in which its
+sweeps finish, leaves every cell in the state of the plain phase-by-phase step; in particular the
+result does not depend on the interleaving.  (Tasks are atomic in `runSchedule`; that two sweeps
+running at the same time touch disjoint subgrids is C07's `hydro_conflict_free`.) -/
+theorem worker_execution_equals_step (L : Layout) (c : Cells) (hc : 0 < c.cx ∧ 0 < c.cy ∧ 0 < c.cz)
+    (flux : FluxFn ℝ) (pr : Params ℝ) (limiter : HV ℝ → Grad ℝ) (predict : HV ℝ → Q ℝ)
+    (ls : List (Worker.Label Task)) (hl : ∀ l ∈ ls, exists_ L (Worker.labelTask l) = true)
+    (w : Worker.WState Task) (h : Worker.run (graph L) (Worker.init (graph L)) ls = some w)
+    (h0 : w.num = 0) (s : Grid (HV ℝ)) (x : Cell) (hx : valid (cellGrid L c) x = true) :
+    runSchedule flux pr limiter predict L c (Worker.finishOrder ls) s x
+      = hydroStep flux pr limiter predict (layoutOps L c) (layoutOps L c) s x :=
+  schedule_equals_step L c hc flux pr limiter predict _
+    (worker_execution_is_linear_extension L ls hl w h h0) s x hx
 
 /-- non-vacuity: the phase-by-phase order is a linear extension for every layout -/
 example (L : Layout) : LinExt L (phaseSched L) := phaseSched_linExt L
